@@ -230,7 +230,8 @@ def branchy(xs, flag):
 
 def selftest():
     fs, n = analyse_tree(ast.parse(SELFTEST_SRC))
-    return n == 4 and [(f.func, f.name) for f in fs] == [("bad", "fractions")]
+    so = set_order_findings(ast.parse(SELFTEST_SETS))
+    return n == 4 and [(f.func, f.name) for f in fs] == [("bad", "fractions")] and [(x[0], x[3]) for x in so] == [("bad", "tuple unpacking")]
 
 
 def check_modules(ctx, rule, module_names):
@@ -245,6 +246,12 @@ def check_modules(ctx, rule, module_names):
         total += n
         if not fs:
             ctx.ok(rule, f"{mn}:iterators consumed once", m.relpath, "no generator / map / zip / filter object is consumed a second time after it has been exhausted", nontrivial=True, functions_scanned=n)
+        for func, node, src, how in set_order_findings(m.tree):
+            ctx.bad(
+                rule, f"{mn}.{func}:order of set {src}", f"{m.relpath}:{node.lineno}",
+                "nothing positional is derived from the iteration order of a set (it is not defined: string hashing is randomised per process)",
+                signature=f"set order used for {how}", statement=ast.unparse(node)[:120],
+            )
         for f in fs:
             ctx.bad(
                 rule, f"{mn}.{f.func}:iterator {f.name}", f"{m.relpath}:{f.node.lineno}",
@@ -252,3 +259,124 @@ def check_modules(ctx, rule, module_names):
                 signature=f"{f.name} consumed twice", first_use=f"line {f.first[0]}: {f.first[1]}", second_use=f"line {f.second[0]}: {f.second[1]}",
             )
     return total
+
+
+# ------------------------------------------------------------------------------------------------------------------
+# second clause of rule G: the iteration order of a set is not defined (string hashing is randomised per process), so
+# nothing positional may be derived from it
+def set_order_findings(tree):
+    """[(func, node, set name, how)]: a set is iterated where the *position* of the items matters - tuple unpacking,
+    star-arguments, zip / enumerate, or building a list / tuple that is then unpacked"""
+    out = []
+    module_sets = set()
+
+    def is_set_expr(e, known):
+        if isinstance(e, (ast.Set, ast.SetComp)):
+            return True
+        if isinstance(e, ast.Call) and ast.unparse(e.func) in ("set", "frozenset"):
+            return True
+        if isinstance(e, ast.Name) and e.id in known:
+            return True
+        if isinstance(e, ast.BinOp) and isinstance(e.op, (ast.BitOr, ast.BitAnd, ast.Sub, ast.BitXor)) and (is_set_expr(e.left, known) or is_set_expr(e.right, known)):
+            return True
+        if isinstance(e, ast.Call) and isinstance(e.func, ast.Attribute) and e.func.attr in ("intersection", "union", "difference", "symmetric_difference", "copy") and is_set_expr(e.func.value, known):
+            return True
+        return False
+
+    for node in tree.body:
+        if isinstance(node, ast.Assign) and len(node.targets) == 1 and isinstance(node.targets[0], ast.Name) and is_set_expr(node.value, module_sets):
+            module_sets.add(node.targets[0].id)
+        elif isinstance(node, ast.AnnAssign) and isinstance(node.target, ast.Name) and node.value is not None and is_set_expr(node.value, module_sets):
+            module_sets.add(node.target.id)
+
+    def iterates_set(e, known):
+        """the set (name / text) whose iteration order determines the order of the elements of expression e"""
+        if is_set_expr(e, known):
+            return ast.unparse(e)[:40]
+        if isinstance(e, (ast.ListComp, ast.GeneratorExp)) and len(e.generators) == 1 and is_set_expr(e.generators[0].iter, known):
+            return ast.unparse(e.generators[0].iter)[:40]
+        if isinstance(e, ast.Call) and ast.unparse(e.func) in ("list", "tuple", "iter") and e.args:
+            return iterates_set(e.args[0], known)
+        return None
+
+    for fn in [n for n in ast.walk(tree) if isinstance(n, (ast.FunctionDef, ast.AsyncFunctionDef))]:
+        # mappings whose key order is the CALLER's: a dict built by iterating a parameter (`{k: f(v) for k, v in
+        # param.items() if ...}`, `dict(param)`); using their values()/keys()/items() positionally binds by the caller's
+        # key order instead of by key
+        params = {a.arg for a in fn.args.posonlyargs + fn.args.args + fn.args.kwonlyargs}
+        caller_ordered = {}
+        for n in ast.walk(fn):
+            if isinstance(n, ast.Assign) and len(n.targets) == 1 and isinstance(n.targets[0], ast.Name):
+                v = n.value
+                src = None
+                if isinstance(v, ast.DictComp) and len(v.generators) == 1:
+                    it_ = v.generators[0].iter
+                    base = it_.func.value if isinstance(it_, ast.Call) and isinstance(it_.func, ast.Attribute) and it_.func.attr in ("items", "keys") else it_
+                    if isinstance(base, ast.Name) and base.id in params:
+                        src = base.id
+                elif isinstance(v, ast.Call) and ast.unparse(v.func) == "dict" and v.args and isinstance(v.args[0], ast.Name) and v.args[0].id in params:
+                    src = v.args[0].id
+                if src:
+                    caller_ordered[n.targets[0].id] = src
+
+        def mapping_positional(e):
+            if isinstance(e, ast.Call) and isinstance(e.func, ast.Attribute) and e.func.attr in ("values", "items", "keys") and isinstance(e.func.value, ast.Name):
+                nm = e.func.value.id
+                if nm in caller_ordered:
+                    return f"{nm}.{e.func.attr}() (key order of the argument {caller_ordered[nm]})"
+                if nm in params:
+                    return f"{nm}.{e.func.attr}() (key order of the caller's mapping)"
+            return None
+
+        for n in ast.walk(fn):
+            if isinstance(n, ast.Call):
+                for a in n.args:
+                    if isinstance(a, ast.Starred) and mapping_positional(a.value):
+                        out.append((fn.name, n, mapping_positional(a.value), f"star-arguments of {ast.unparse(n.func)}"))
+            elif isinstance(n, ast.Assign) and any(isinstance(t, (ast.Tuple, ast.List)) for t in n.targets) and mapping_positional(n.value):
+                out.append((fn.name, n, mapping_positional(n.value), "tuple unpacking"))
+        known = set(module_sets)
+        ordered = {}  # name -> set it was built from by list()/tuple()/comprehension
+        for n in ast.walk(fn):
+            if isinstance(n, ast.Assign) and len(n.targets) == 1 and isinstance(n.targets[0], ast.Name):
+                if is_set_expr(n.value, known):
+                    known.add(n.targets[0].id)
+                else:
+                    src = iterates_set(n.value, known)
+                    if src:
+                        ordered[n.targets[0].id] = src
+        for n in ast.walk(fn):
+            if isinstance(n, ast.Assign) and any(isinstance(t, (ast.Tuple, ast.List)) for t in n.targets):
+                src = iterates_set(n.value, known) or (ordered.get(n.value.id) if isinstance(n.value, ast.Name) else None)
+                if src:
+                    out.append((fn.name, n, src, "tuple unpacking"))
+            elif isinstance(n, ast.Call):
+                fnm = ast.unparse(n.func)
+                for a in n.args:
+                    if isinstance(a, ast.Starred):
+                        src = iterates_set(a.value, known) or (ordered.get(a.value.id) if isinstance(a.value, ast.Name) else None)
+                        if src:
+                            out.append((fn.name, n, src, f"star-arguments of {fnm}"))
+                if fnm in ("zip", "enumerate"):
+                    for a in n.args:
+                        src = iterates_set(a, known)
+                        if src:
+                            out.append((fn.name, n, src, fnm))
+            elif isinstance(n, ast.Subscript) and isinstance(n.value, ast.Name) and n.value.id in ordered and isinstance(n.slice, ast.Constant):
+                out.append((fn.name, n, ordered[n.value.id], "indexing a list built from the set"))
+    return out
+
+
+SELFTEST_SETS = '''
+NEED = {"compressibility", "pressure", "viscosity"}
+def bad(t):
+    c, p, mu = (t[col] for col in NEED)
+    return c, p, mu
+def good(t):
+    if NEED.intersection(t) != NEED:
+        raise ValueError(f"need {NEED}")
+    for col in NEED:
+        if col not in t:
+            raise ValueError(col)
+    return sorted(NEED)
+'''
